@@ -213,6 +213,11 @@ class _MetaAbstractArray(type):
             # numpy structured array is strictly a subtype of np.void
             if _dtype_is_numpy_struct_array(obj.dtype):
                 dtype = str(obj.dtype)
+            elif obj.dtype.type.__module__ == "numpy" and obj.dtype.kind in "iufc":
+                # Use the canonical sized name, so that platform aliases are recognised
+                # for what they are, e.g. `longlong` is `int64`, `longdouble` is
+                # `float128` (or `float64`, depending on the platform).
+                dtype = obj.dtype.name
         elif hasattr(obj.dtype, "as_numpy_dtype"):
             # TensorFlow
             dtype = obj.dtype.as_numpy_dtype.__name__
@@ -775,8 +780,12 @@ _bfloat16 = "bfloat16"
 _float16 = "float16"
 _float32 = "float32"
 _float64 = "float64"
+_float96 = "float96"  # `np.longdouble`, depending on the platform
+_float128 = "float128"
 _complex64 = "complex64"
 _complex128 = "complex128"
+_complex192 = "complex192"  # `np.clongdouble`, depending on the platform
+_complex256 = "complex256"
 
 
 def _make_dtype(_dtypes, name):
@@ -826,8 +835,8 @@ float8 = [
     _float8_e5m2,
     _float8_e5m2fnuz,
 ]
-floats = float8 + [_bfloat16, _float16, _float32, _float64]
-complexes = [_complex64, _complex128]
+floats = float8 + [_bfloat16, _float16, _float32, _float64, _float96, _float128]
+complexes = [_complex64, _complex128, _complex192, _complex256]
 
 # We match NumPy's type hierarachy in what types to provide. See the diagram at
 # https://numpy.org/doc/stable/reference/arrays.scalars.html#scalars
